@@ -635,3 +635,35 @@ func genC09Hidi(t *rapid.T) C09HidiCase {
 func TestC09Hidi(t *testing.T) {
 	harness.ReplayOrRapid(t, harness.NewRun(t, "C09"), checkC09Hidi, genC09Hidi)
 }
+
+func (c C18Case) Sample() interface{} {
+	out := map[string]interface{}{"directory exists": c.DirExists, "reruns": c.Reruns}
+	if c.CrashKind != "" {
+		out["crash state"] = fmt.Sprintf("interrupted %s run: walk entries before #%d complete, entry #%d cut at byte %d", c.CrashKind, c.CrashAfter, c.CrashAfter, c.CrashAtByte)
+	}
+	var keys []string
+	for k := range c.Factory {
+		keys = append(keys, k)
+	}
+	sort.Strings(keys)
+	var fs []string
+	for _, k := range keys {
+		if c.Factory[k] != "intact" {
+			fs = append(fs, strings.TrimPrefix(k, "hidi-config/factory/")+"="+c.Factory[k])
+		}
+	}
+	out["factory files not intact"] = fs
+	out["absent factory dirs"] = c.AbsentDirs
+	var us []string
+	for _, u := range c.User {
+		us = append(us, fmt.Sprintf("%s(%dB)", strings.TrimPrefix(u.Path, "hidi-config/"), len(u.Data)))
+	}
+	out["user files"] = us
+	out["hidi.toml present"] = c.HidiToml != nil
+	out["blacklist present"] = c.Blacklist != nil
+	return out
+}
+
+func (c C09HidiCase) Sample() interface{} {
+	return map[string]interface{}{"hidi.toml bytes": len(c.Data), "content": clipStr(fmt.Sprintf("%q", string(c.Data)), 400)}
+}
